@@ -7,4 +7,5 @@ var Harnesses = map[string]func(){
 	"C07": C07,
 	"C11": C11,
 	"C15": C15,
+	"C06": C06,
 }
